@@ -39,7 +39,7 @@ def cells(tier):
     # ID), roMetadataReplace, roDelete, roReadyToAir
     from .p_c04 import rcell, mcell
     from .p_c03 import icell
-    for N, k, kw in ((2, 2, {}), (2, 2, {'repeat_id': True}), (3, 1, {'repeat_id': True})):
+    for N, k, kw in ((2, 2, {'no_warn': True}), (2, 2, {'repeat_id': True, 'no_warn': True}), (3, 1, {'repeat_id': True, 'no_warn': True})):
         out.append(rcell(PID, N, k, T=60 if tier == 'quick' else 600, **kw))
     for op in ('roDelete', 'roReadyToAir'):
         out.append(icell(PID, op, N=2, T=60 if tier == 'quick' else 600))
